@@ -16,8 +16,16 @@ What is proved (Props/C16.lean, Lemmas/OStream.lean; all for ALL objects, ALL bu
                           true whenever the layout did not refuse the object;
   * `save_null_header`    no header (`header == nullptr`) or an already failed stream => false, stream untouched;
   * `save_budget_witness` the return expression before commit 6e814a7 (`return is_still_good;`, kept as
-                          `saveWriteOld`/`saveOld` for documentation) answers true for the default object and a
-                          stream that accepts 100 of its 136 bytes (finding F1), while the repaired one answers false.
+                          `saveWriteOld`/`saveOld` for documentation; `saveOld_same_effects` ties the copy to `save`)
+                          answers true for a two-section object and a stream that accepts 100 of its 144 bytes
+                          (finding F1), while the repaired one answers false (`decide`).
+  * `save_pair`           what precedes the write phase never looks at the stream: for two streams that have not failed
+                          `save` takes the same path (fault / refusal / write phase with the same arguments);
+                          `saveWrite_eq_ops`: the write phase is a fixed list of stream operations (`saveOps`) and
+                          its result is `!fail` of the final stream.
+Proof idea of `save_fail`: a budgeted stream simulates the unlimited one until its first failure (`Sim`,
+`sim_runStreamOps`), and it never holds more than k bytes; so a run that ends without failure ends with the unlimited
+content, which has more than k bytes — contradiction.
 The model of save() (Model/Writer.lean `save`/`saveWrite`) uses the generated result expressions of
 `elfio::save`, `save_sections`, `save_segments`, `elf_header_impl::save` (Gen/SitesC16.lean) and the generated
 layout arithmetic (Gen/SitesWriter.lean); Model/OStream.lean is the stream.
@@ -66,7 +74,7 @@ RULE = ("objects: random writer programs (0-5 extra sections of type PROGBITS/NO
         "alignments 0..64, 0-2 segments with member runs, optional explicit addresses) in ELF32/ELF64 x LSB/MSB, "
         "encoder-built images and bundled examples loaded eagerly or lazily; failure points: quick = every k in "
         "0..L+1 for the generated objects without page-aligned segments, the encoder-built images and the bundled "
-        "examples <= 8 KB, and a boundary-biased sample (0, 1, header end +-1, program "
+        "examples <= 5 KB, and a boundary-biased sample (0, 1, header end +-1, program "
         "header table end, L-1, L, L+1, section-header-table boundaries, random) for larger ones; thorough = every k "
         "for every generated and example object <= 64 KiB; plus unopenable paths, /dev/full and files limited to k bytes "
         "(k around L and the last section header) through the file-name overload; one case = one object with up to 400 (3000 in digest mode) failure points. non-trivial = a budgeted save with 0 < k < L that the stream cut short; distinct by md5 of the case")
@@ -216,7 +224,7 @@ def save_cases(cid, build, est_len, cls, nsec, nseg, allk, rng, meta, n_rand=12)
 def gen_cases(rng, tier):
     quick = tier == "quick"
     # A. generated writer programs, all failure points
-    nA = 60 if quick else 200
+    nA = 48 if quick else 200
     for i in range(nA):
         cls, enc = CFGS[i % 4]
         build, est, dom = gen_program(rng, cls, enc)
@@ -250,7 +258,7 @@ def gen_cases(rng, tier):
     # an object in no specified state: outside the domain)
     exs = [(f, b) for f, b in examples(65536) if elfspec.wellformed(b) and not f.startswith("crash")]
     if quick:
-        small = [e for e in exs if len(e[1]) <= 8000]
+        small = [e for e in exs if len(e[1]) <= 5000]
         for f, b in small:
             ns, ng = counts(b); cls = 32 if b[4] == 1 else 64
             yield from save_cases(f"ex-{f}", [f"load {hx(b)} lazy=0 kind=str"], image_bound(b), cls, ns, ng, True, rng,
